@@ -22,7 +22,8 @@ warnings.simplefilter("ignore")
 def build(case):
     import mouette as M
     d = M.mesh.RawMeshData()
-    d.vertices += [M.Vec(float(x), float(y), float(z)) for x, y, z in case["V"]]
+    sc = 2.0 ** int(case.get("scale", 0))      # exact dyadic rescaling of the lattice coordinates
+    d.vertices += [M.Vec(float(x) * sc, float(y) * sc, float(z) * sc) for x, y, z in case["V"]]
     kind = case["kind"]
     if kind == "surface":
         if case.get("E"):   # explicit edge list (as a file with an edge section gives), possibly with edges of no face
@@ -60,6 +61,14 @@ def entries(mat):
             if v == 0:
                 continue
             out.append([int(i), int(j), fl(v)])
+    if MUTATE_RESULTS[0]:
+        try:
+            if isinstance(getattr(mat, "data", None), np.ndarray) and mat.data.dtype != object:
+                mat.data[...] = 7777.0
+            elif mat.shape[0] and mat.shape[1]:
+                mat[0, 0] = 7777.0
+        except Exception:  # noqa
+            pass
     return {"shape": [int(mat.shape[0]), int(mat.shape[1])], "ent": out, "complex": bool(cplx), "nnz": raw_nnz,
             "stored_zeros": raw_zeros,
             "format": type(mat).__name__}
@@ -78,26 +87,71 @@ def flag(s):
     return s == "1"
 
 
-def run_op(case, name, mesh=None):
+# defaults of the optional parameters as the library documents them (the translator pins the same values in Gen.v)
+DEFAULTS = {"cotan": True, "inverse_ced": True, "inverse": False, "sqrt": False, "oriented": False, "as_complex": True}
+MUTATE_RESULTS = [False]
+
+
+def rep(v, form):
+    """a boolean flag in one of its legal representations"""
+    return [bool(v), int(v), np.bool_(v), bool(v)][form % 4]
+
+
+def call(fn, fixed, opts, form, fmt=False):
+    """call fn(*fixed, <opts>) in one of the call forms: flags as bool / int / numpy.bool_, options by keyword, positionally,
+    or omitted when they carry their default; `fmt`: mass matrices also accept a scipy format name"""
+    style = (form // 4) % 3
+    vals = [(k, rep(v, form + i), dk) for i, (k, v, dk) in enumerate(opts)]
+    kw = {}
+    if fmt:
+        f_ = [None, "csr", "coo", "dia", "csc", None][(form // 12) % 6]
+        if f_ is not None:
+            kw["format"] = f_
+    if style == 1:
+        return fn(*fixed, *[v for _, v, _ in vals], **kw)
+    if style == 2:
+        for k, v, dk in vals:
+            if bool(v) != DEFAULTS[dk]:
+                kw[k] = v
+        return fn(*fixed, **kw)
+    for k, v, _ in vals:
+        kw[k] = v
+    return fn(*fixed, **kw)
+
+
+def run_op(case, name, mesh=None, form=0):
     import mouette as M
     from mouette import operators as O
     from mouette.processing.connection import SurfaceConnectionFaces, FlatConnectionFaces
     if mesh is None:
         mesh = build(case)
     base, _, arg = name.partition(":")
+    if base == "bad":     # calls that must be refused (and leave the mesh as it was)
+        try:
+            if arg == "weights":
+                O.adjacency_matrix(mesh, weights="Length")
+            elif arg == "meshtype":
+                (O.volume_laplacian if case["kind"] != "volume" else O.laplacian)(mesh)
+            else:
+                raise ValueError(arg)
+        except ValueError:
+            raise
+        except Exception as ex:  # noqa
+            return {"raised": type(ex).__name__}
+        return {"raised": None}
     if base == "lap":
-        return entries(O.laplacian(mesh, cotan=flag(arg)))
+        return entries(call(O.laplacian, [mesh], [("cotan", flag(arg), "cotan")], form))
     if base == "glap":
         return entries(O.graph_laplacian(mesh))
     if base == "ced":
-        return entries(O.cotan_edge_diagonal(mesh, inverse=flag(arg)))
+        return entries(call(O.cotan_edge_diagonal, [mesh], [("inverse", flag(arg), "inverse_ced")], form))
     if base == "laptri":
-        return entries(O.laplacian_triangles(mesh, cotan=flag(arg)))
+        return entries(call(O.laplacian_triangles, [mesh], [("cotan", flag(arg), "cotan")], form))
     if base == "lapedges":
-        return entries(O.laplacian_edges(mesh, cotan=flag(arg)))
+        return entries(call(O.laplacian_edges, [mesh], [("cotan", flag(arg), "cotan")], form))
     if base in ("gradc", "gradr"):
         conn = SurfaceConnectionFaces(mesh) if arg == "conn" else FlatConnectionFaces(mesh)
-        r = entries(O.gradient(mesh, conn, as_complex=(base == "gradc")))
+        r = entries(call(O.gradient, [mesh, conn], [("as_complex", base == "gradc", "as_complex")], form))
         r["bases"] = [[[float(t) for t in conn.base(i)[0]], [float(t) for t in conn.base(i)[1]]] for i in range(len(mesh.faces))]
         return r
     if base == "gag":   # Re(G^* A G) with scipy's products, on the same mesh object
@@ -107,17 +161,21 @@ def run_op(case, name, mesh=None):
         return entries((G.conj().transpose() @ A @ G).real)
     if base == "massv":
         i, s = arg.split(",")
-        return entries(O.area_weight_matrix(mesh, inverse=flag(i), sqrt=flag(s)))
+        return entries(call(O.area_weight_matrix, [mesh], [("inverse", flag(i), "inverse"), ("sqrt", flag(s), "sqrt")], form, fmt=True))
     if base == "massf":
-        return entries(O.area_weight_matrix_faces(mesh, inverse=flag(arg)))
+        return entries(call(O.area_weight_matrix_faces, [mesh], [("inverse", flag(arg), "inverse")], form, fmt=True))
     if base == "masse":
-        return entries(O.area_weight_matrix_edges(mesh, inverse=flag(arg)))
+        return entries(call(O.area_weight_matrix_edges, [mesh], [("inverse", flag(arg), "inverse")], form))
     if base == "adj":
         if arg == "custom":
-            return entries(O.adjacency_matrix(mesh, weights={e: float(w) for e, w in enumerate(case["custom_w"])}))
-        return entries(O.adjacency_matrix(mesh, weights=arg))
+            cast = [float, np.float64, np.float32, float][form % 4]      # the weights are multiples of 1/4: exact in every type
+            w = {(int(e) if form % 2 == 0 else np.int64(e)): cast(x) for e, x in enumerate(case["custom_w"])}
+            return entries(O.adjacency_matrix(mesh, w) if (form // 4) % 3 == 1 else O.adjacency_matrix(mesh, weights=w))
+        if arg == "one" and (form // 4) % 3 == 2:
+            return entries(O.adjacency_matrix(mesh))
+        return entries(O.adjacency_matrix(mesh, arg) if (form // 4) % 3 == 1 else O.adjacency_matrix(mesh, weights=arg))
     if base == "v2e":
-        return entries(O.vertex_to_edge_operator(mesh, oriented=flag(arg)))
+        return entries(call(O.vertex_to_edge_operator, [mesh], [("oriented", flag(arg), "oriented")], form))
     if base == "v2f":
         return entries(O.vertex_to_face_operator(mesh))
     if base == "vollap":
@@ -126,10 +184,10 @@ def run_op(case, name, mesh=None):
         return entries(O.laplacian_tetrahedra(mesh))
     if base == "massvv":
         i, s = arg.split(",")
-        return entries(O.volume_weight_matrix(mesh, inverse=flag(i), sqrt=flag(s)))
+        return entries(call(O.volume_weight_matrix, [mesh], [("inverse", flag(i), "inverse"), ("sqrt", flag(s), "sqrt")], form, fmt=True))
     if base == "massvc":
         i, s = arg.split(",")
-        return entries(O.volume_weight_matrix_cells(mesh, inverse=flag(i), sqrt=flag(s)))
+        return entries(call(O.volume_weight_matrix_cells, [mesh], [("inverse", flag(i), "inverse"), ("sqrt", flag(s), "sqrt")], form, fmt=True))
     raise ValueError("unknown operator " + name)
 
 
@@ -197,11 +255,13 @@ def run_sequence(case, res):
         except Exception as ex:  # noqa
             res["pre"].append([name, "%s: %s" % (type(ex).__name__, ex)])
     steps = []
-    for name in case["seq"]:
+    forms = case.get("forms") or [0] * len(case["seq"])
+    MUTATE_RESULTS[0] = True      # every returned matrix is clobbered after it was read: results must not be shared objects
+    for name, form in zip(case["seq"], forms):
         before = snapshot(mesh)
         try:
             with np.errstate(all="ignore"):
-                r = run_op(case, name, mesh)
+                r = run_op(case, name, mesh, form)
         except Exception as ex:  # noqa
             r = {"error": "%s: %s" % (type(ex).__name__, ex)}
         after = snapshot(mesh)
@@ -212,6 +272,17 @@ def run_sequence(case, res):
 
 
 def run_case(case):
+    import mouette as M
+    saved = M.config.sort_neighborhoods
+    try:
+        if "sort_neighborhoods" in case:
+            M.config.sort_neighborhoods = bool(case["sort_neighborhoods"])
+        return run_case_(case)
+    finally:
+        M.config.sort_neighborhoods = saved
+
+
+def run_case_(case):
     res = {"outs": {}}
     try:
         mesh = build(case)
@@ -229,10 +300,12 @@ def run_case(case):
         except Exception as ex:  # noqa
             res["error"] = "%s: %s" % (type(ex).__name__, ex)
         return res
-    for name in case["ops"]:
+    MUTATE_RESULTS[0] = False
+    forms = case.get("forms") or [0] * len(case["ops"])
+    for name, form in zip(case["ops"], forms):
         try:
             with np.errstate(all="ignore"):
-                res["outs"][name] = run_op(case, name)
+                res["outs"][name] = run_op(case, name, None, form)
         except Exception as ex:  # noqa
             res["outs"][name] = {"error": "%s: %s" % (type(ex).__name__, ex)}
     return res
